@@ -1,9 +1,13 @@
 (* Props/C04.v — House participations are paid exactly once, with correct amount and fee routing.
    The per-participation laws are proved (guard, amounts, fee routing, records); over histories a paid-out participation
    is never touched again (C04_paid_final) and, by C01_custody, what is paid is exactly what the pool held for it.
-   Attribution of profit to backing parts across histories is decided per run by the EndBlock accounting monitor. *)
+   Over ALL histories (C04_attribution, C04_declared_amount, C04_refund_amount; Proofs/Settle.v, Solvent.v, NoAbort.v): the profit recorded
+   on a participation is exactly the stakes of the settled losing bets it backed minus the winnings of the settled winning bets it
+   backed; once the book is resolved every bet is settled and the payout liquidity + profit equals liquidity + losing stakes - winnings
+   and is never negative; on cancel/abort the profit is 0, so exactly the remaining liquidity is returned. *)
 From Coq Require Import ZArith Bool List.
-From Sge Require Import Lib.Dec Model.Types Model.Orderbook Model.Mint Model.Chain Proofs.BookFacts Proofs.Custody Proofs.Mono.
+From Sge Require Import Lib.Dec Model.Types Model.Orderbook Model.Mint Model.Chain Proofs.BookFacts Proofs.Custody Proofs.Mono
+     Proofs.BookCover Proofs.CoverHist Proofs.SubHist Proofs.Settle Proofs.NoAbort Witness.C11w.
 Import ListNotations.
 Open Scope Z_scope.
 
@@ -44,3 +48,45 @@ Theorem C04_paid_final : forall bk supply P vault MP t0 sw sd,
   exists x', get_ms (run (init bk supply P vault MP t0 sw sd) (ops1 ++ ops2)) m = Some x' /\ In p (bk_parts (ms_book x')).
 Proof. exact paid_participation_is_final. Qed.
 Print Assumptions C04_paid_final.
+
+(* profit attribution in every reachable state: exp_profit x i = (if the market's result is declared, with winner w) the sum over the
+   SETTLED bets b of (if b backed w then - winnings paid by participation i else + stake taken by participation i), else 0 *)
+Theorem C04_attribution : forall P bk supply vault MP t0 sw sd,
+  pr_bet_fee P <= pr_bet_min P -> 0 <= pr_bet_fee P ->
+  bget bk POOL = 0 -> bget bk HOUSEFEE = 0 -> bget bk BETFEE = 0 -> (forall a, SUBBASE <= a -> 0 <= bget bk a) ->
+  forall ops m x p, Forall user_op ops -> get_ms (run (init bk supply P vault MP t0 sw sd) ops) m = Some x ->
+  In p (bk_parts (ms_book x)) -> p_profit p = exp_profit x (p_idx p).
+Proof. exact attribution_over_histories. Qed.
+Print Assumptions C04_attribution.
+
+(* declared result, book no longer active (being paid out or paid): all bets are settled, and liquidity + profit -- what
+   settle_participation pays (C04_declared) -- is the remaining liquidity plus the stakes of the losing bets the participation
+   backed minus the winnings of the winning bets it backed; it is never negative *)
+Theorem C04_declared_amount : forall P bk supply vault MP t0 sw sd,
+  pr_bet_fee P <= pr_bet_min P -> 0 <= pr_bet_fee P ->
+  bget bk POOL = 0 -> bget bk HOUSEFEE = 0 -> bget bk BETFEE = 0 -> (forall a, SUBBASE <= a -> 0 <= bget bk a) ->
+  forall ops m x p w, Forall user_op ops -> get_ms (run (init bk supply P vault MP t0 sw sd) ops) m = Some x ->
+  In p (bk_parts (ms_book x)) -> bk_status (ms_book x) <> BK_ACTIVE -> k_status (ms_mkt x) = MK_DECLARED -> k_winners (ms_mkt x) = [w] ->
+  (forall b, In b (ms_bets x) -> b_status b = BS_SETTLED) /\
+  p_liq p + p_profit p =
+    p_liq p + (stake_i (p_idx p) (bets_of x) - stake_io (p_idx p) w (bets_of x)) - pay_io (p_idx p) w (bets_of x) /\
+  0 <= p_liq p + p_profit p.
+Proof. exact payout_over_histories. Qed.
+Print Assumptions C04_declared_amount.
+
+(* cancelled / aborted (or still open): no profit is ever recorded, so the refund (C04_refund) is exactly the remaining liquidity,
+   and liquidity and fee are never negative *)
+Theorem C04_refund_amount : forall P bk supply vault MP t0 sw sd,
+  pr_bet_fee P <= pr_bet_min P -> 0 <= pr_bet_fee P ->
+  bget bk POOL = 0 -> bget bk HOUSEFEE = 0 -> bget bk BETFEE = 0 -> (forall a, SUBBASE <= a -> 0 <= bget bk a) ->
+  forall ops m x p, Forall user_op ops -> get_ms (run (init bk supply P vault MP t0 sw sd) ops) m = Some x ->
+  In p (bk_parts (ms_book x)) -> k_status (ms_mkt x) <> MK_DECLARED -> p_profit p = 0 /\ 0 <= p_liq p /\ 0 <= p_fee p.
+Proof. exact refund_over_histories. Qed.
+Print Assumptions C04_refund_amount.
+
+(* non-vacuity: in the witness history a declared market has a paid participation with a non-zero recorded profit *)
+Example C04_attribution_witness :
+  existsb (fun e => (k_status (ms_mkt (snd e)) =? MK_DECLARED) &&
+                    existsb (fun p => p_settled p && negb (p_profit p =? 0)) (bk_parts (ms_book (snd e))))
+          (c_ms (run c11w_init c11w_ops)) = true.
+Proof. vm_compute. reflexivity. Qed.
